@@ -75,12 +75,18 @@ func newBatchWorld(t *testing.T, rc *RunCtx, twin bool) *batchWorld {
 	case 3:
 		perms = map[string][]*checker.Permissions{"client1": {{Path: "Big", Operations: []string{"Sign beacon attestation", "Sign beacon proposal", "Sign", "~Lock wallet", "~Create account"}}}}
 	}
-	w.a, err = NewInstance(s, "A", InstCfg{Dir: NewRunDir(t), Pop: pop, Permissions: perms, AdminIPs: []string{"10.0.0.1"}})
+	// A fifth of the twin runs: the unlocker knows no account passphrases (the operator unlocks accounts by hand; the
+	// large wallet's accounts are unlocked already).  An unlocked account signs whatever the unlocker could or could not do.
+	noPass := twin && rc.Ch.Pick(5, 0) == 4
+	if noPass {
+		rc.Stats.Inc("runs_with_an_unlocker_without_account_passphrases", 1)
+	}
+	w.a, err = NewInstance(s, "A", InstCfg{Dir: NewRunDir(t), Pop: pop, Permissions: perms, AdminIPs: []string{"10.0.0.1"}, NoAccountPassphrases: noPass})
 	if err != nil {
 		t.Fatalf("instance A: %v", err)
 	}
 	if twin {
-		w.b, err = NewInstance(s, "B", InstCfg{Dir: NewRunDir(t), Pop: pop, Permissions: perms, AdminIPs: []string{"10.0.0.1"}})
+		w.b, err = NewInstance(s, "B", InstCfg{Dir: NewRunDir(t), Pop: pop, Permissions: perms, AdminIPs: []string{"10.0.0.1"}, NoAccountPassphrases: noPass})
 		if err != nil {
 			t.Fatalf("instance B: %v", err)
 		}
